@@ -9,9 +9,13 @@
    VMStage keeps its VM between calls).  Stage outputs are *values*: the model has no
    aliasing between an output and its copy (see notes/C16.md, finding KF-C16-2).
 
-   Part 2: a concrete instance used (a) for the refutation -- `clone_out` there is the code's:
-   `Heap::clone()` returns `Heap::new()`, so a cloned `Compiled` output owns no heap objects
-   (bytecode/src/heap/mod.rs) -- and (b) for the contract tie: hx_pipeline --mode proto drives
+   An output is inserted into the cache only when both the stage and the output say so
+   (`stage.cacheable() && output.cacheable()`; a Compiled output is never cacheable since the
+   repair of KF-C16-1/2).
+
+   Part 2: a concrete instance with the code's `clone_out` -- `Heap::clone()` returns
+   `Heap::new()`, so a cloned `Compiled` output owns no heap objects (bytecode/src/heap/mod.rs)
+   -- used (a) to state transparency for the clone the code really makes and (b) for the contract tie: hx_pipeline --mode proto drives
    the real Pipeline with synthetic stages described by the same data. *)
 From Coq Require Import NArith ZArith Bool List String.
 Import ListNotations.
@@ -22,6 +26,7 @@ Section Pipeline.
   Variable hash : src -> N.
   Variable inject : src -> out.
   Variable clone_out : out -> out.
+  Variable cache_ok : out -> bool.         (* StageOutput::cacheable: false for Compiled *)
   Variable is_value : out -> bool.         (* StageOutput::Value *)
   Variable is_compiled : out -> bool.      (* StageInput::Compiled *)
   (* TypeMismatch{expected "non-final output", got Value}; MissingInput{"final"};
@@ -69,7 +74,7 @@ Section Pipeline.
           match s_run stg s cur with
           | (s', SErr e) => (c, s', RErr e)
           | (s', SOk o) =>
-              let c' := if s_cacheable stg then ((s_name stg, h), clone_out o) :: c else c in
+              let c' := if s_cacheable stg && cache_ok o then ((s_name stg, h), clone_out o) :: c else c in
               if is_value o then (c', s', on_value cm o) else walk cm rest h c' s' o
           end
       end
@@ -160,6 +165,8 @@ Definition clone_code (o : cout) : cout :=
   end.
 
 Definition c_is_value (o : cout) := shape_eqb (o_shape o) ShValue.
+(* StageOutput::cacheable *)
+Definition c_cache_ok (o : cout) := negb (shape_eqb (o_shape o) ShCompiled).
 Definition c_is_compiled (o : cout) := shape_eqb (o_shape o) ShCompiled.
 Definition c_inject (sid : N) : cout := {| o_shape := ShSource; o_sid := sid; o_payload := 0; o_heap := 0 |}.
 
@@ -201,8 +208,8 @@ Fixpoint syn_stages_from (idx : nat) (ys : list synspec) : list (stage cout cerr
   end.
 Definition syn_stages := syn_stages_from 0.
 
-Definition cwalk := walk cout cerr cst clone_code c_is_value c_is_compiled EValueAsInput EMissing ENotCompiled.
-Definition cserve := serve N cout cerr cst (fun x => x) c_inject clone_code c_is_value c_is_compiled EValueAsInput EMissing ENotCompiled.
+Definition cwalk := walk cout cerr cst clone_code c_cache_ok c_is_value c_is_compiled EValueAsInput EMissing ENotCompiled.
+Definition cserve := serve N cout cerr cst (fun x => x) c_inject clone_code c_cache_ok c_is_value c_is_compiled EValueAsInput EMissing ENotCompiled.
 
 Inductive creq := RExec (sid : N) | RCompile (sid : N).
 Definition to_req (r : creq) : request N := match r with RExec x => RqExec x | RCompile x => RqCompile x end.
